@@ -49,6 +49,16 @@ func (m *c10Mapping) valuer() *influxql.NowValuer {
 	return &influxql.NowValuer{Now: m.now, Location: m.zone}
 }
 
+// valuerComp is the same valuer reached through a COMPOSITION: a nested MultiValuer and a NowValuer that knows no
+// zone stand before the one that carries it.  The zone in force is the first non-nil zone; the split must not differ.
+func (m *c10Mapping) valuerComp() influxql.Valuer {
+	if m.zone == time.UTC {
+		return influxql.MultiValuer(influxql.MultiValuer(influxql.MapValuer{}), &influxql.NowValuer{Now: m.now})
+	}
+	return influxql.MultiValuer(influxql.MultiValuer(influxql.MapValuer{}), &influxql.NowValuer{Now: m.now},
+		&influxql.NowValuer{Now: m.now, Location: m.zone})
+}
+
 func c10Map(edge bool, tz string) *c10Mapping {
 	shift := time.Duration(seed()%1000) * 24 * time.Hour
 	zone := time.UTC
@@ -176,6 +186,20 @@ func c10Resolve(toks []interface{}, m *c10Mapping) []interface{} {
 				panic("c10: date form for an instant that is not midnight")
 			}
 			out = append(out, c10Tok("str", at.Format("2006-01-02"), g))
+		case "intm", "intp", "rfcm", "rfcp":
+			// the instant written as arithmetic: (instant + 1h) - 1h  or  (instant - 1h) + 1h
+			hour := big.NewInt(3600e9)
+			sign, op := int64(1), "-"
+			if f == "intp" || f == "rfcp" {
+				sign, op = -1, "+"
+			}
+			if f[0] == 'i' {
+				n := new(big.Int).Add(m.nanos(k, d), new(big.Int).Mul(hour, big.NewInt(sign)))
+				out = append(out, c10Tok("int", n.String(), g))
+			} else {
+				out = append(out, c10Tok("str", at.Add(time.Duration(sign)*time.Hour).UTC().Format(time.RFC3339Nano), g))
+			}
+			out = append(out, c10Tok("p", op, "L"), c10Tok("dur", "1h", "L"))
 		case "dur":
 			n := m.nanos(k, d)
 			if n.Sign() < 0 {
@@ -219,10 +243,14 @@ func c10Split(o M, cond influxql.Expr, m *c10Mapping) { c10SplitInto(o, cond, m,
 // c10SplitInto records one call of ConditionExpr(cond, NowValuer) into o; withAST adds the
 // projection and the text of the residual (only used for the drift report).
 func c10SplitInto(o M, cond influxql.Expr, m *c10Mapping, withAST bool) {
+	c10SplitWith(o, cond, m, withAST, m.valuer())
+}
+
+func c10SplitWith(o M, cond influxql.Expr, m *c10Mapping, withAST bool, valuer influxql.Valuer) {
 	var res influxql.Expr
 	var tr influxql.TimeRange
 	var err error
-	if p := guard(func() { res, tr, err = influxql.ConditionExpr(cond, m.valuer()) }); p != "" {
+	if p := guard(func() { res, tr, err = influxql.ConditionExpr(cond, valuer) }); p != "" {
 		o["panic"] = p
 		return
 	}
@@ -309,7 +337,8 @@ func init() {
 			k["err"] = "parse: " + errStr(err)
 		} else {
 			k["pre"] = printed(e2)
-			c10SplitInto(k, e2, m, false)
+			// the fresh parse is split under the same clock and zone reached through a valuer composition
+			c10SplitWith(k, e2, m, false, m.valuerComp())
 			k["post"] = printed(e2)
 		}
 		more = append(more, k)
